@@ -29,9 +29,14 @@ MANIFEST = dict(
          'job TLC finished is executed on the real Keyvalues/Tokenizer: serialise to str and to a file object, export(), '
          'tree snapshot after serialising, parse from str / chunk list / file object / ready-made Tokenizer, token stream; '
          'plus seeded random trees (all Unicode scalar values, depth 50, width 200, 2000-character strings, random '
-         'whitespace options) and random documents with random flags/options. TLC validates each record with the same '
-         'operators: text = Serialise(tree, opts); every parse result = Parse(Lex(text)) including line numbers and '
-         'error kind/line; parse result = tree; tree unchanged; blanks-only difference; tokens = Lex(text).',
+         'whitespace options), 138 fixed hostile trees (BOM, Unicode line separators, CR LF, quotes/backslashes at '
+         'either end, in every slot) and random documents with random flags/options. TLC judges each record. Verdict '
+         'clauses are the property: every real parse of the text (str, character-by-character/arbitrary chunks, file '
+         'object, the text written by serialise(file), export()) gives the tree back; the tree is unchanged; the texts '
+         'of two option sets are equal after removing whitespace outside quoted strings; a document parses alike from '
+         'str / chunks / file object. Exact conformance with the model (text = Serialise(tree, opts) character for '
+         'character, parse result = Parse(Lex(text)) with line numbers and error kinds, tokens = Lex(text)) is '
+         'reported as diagnostics in the evidence and never makes a violation.',
     design_ref='4 (C01)',
     note='Pure-Python tokenizer only. str.casefold() of non-ASCII flag/directive characters is supplied by the '
          'harness as a table. Trusts TLC and the projection (Keyvalues._real_name/_value/line_num).',
@@ -177,17 +182,21 @@ def run(tier: str, seed: int) -> int:
         allm = []
         total = 0
         n_mism = 0
+        diag: dict = {}
         val_wall = 0.0
         for part in parts:
             mism, st = core.validate_records('KV1Trace', 'KV1Trace.cfg', part, work=work, timeout=3000, heap='2g')
             # keep the (large) record only with mismatches that are not known findings
             for mm in mism:
+                if mm['clause'].startswith('diag.'):      # exact-model comparisons: evidence, never a verdict
+                    diag[mm['clause']] = diag.get(mm['clause'], 0) + 1
+                    continue
                 sg = sig_of(mm)
                 kn, nw = core.classify(PROP, [sg])
                 if kn:
                     sg.pop('record', None)
                 allm.append(sg)
-            n_mism += len(mism)
+            n_mism += sum(1 for mm in mism if not mm['clause'].startswith('diag.'))
             del mism
             total += st['records']
             cov['states'] += st['states']
@@ -202,6 +211,9 @@ def run(tier: str, seed: int) -> int:
         cov['traces_validated_against_impl'] = total
         cov['records_validated'] = total
         cov['mismatches'] = n_mism
+        cov['diagnostics'] = {'note': 'records whose exact text / tokens / parser outcome differ from the KV1Ops model '
+                                      '(layout, line numbers, error kinds, flags): reported, not demanded by C01',
+                              'counts': diag}
         cov['samples'] = samples
         cov['exhaustive'] = True
         cov['rule'] = ('every job of the bounded KV1 families (trees x serialise options, token documents x parse options, '
@@ -222,10 +234,10 @@ def run(tier: str, seed: int) -> int:
 # the drivers, except lines that cannot run the way Keyvalues.parse configures the tokenizer.  Enforced
 # only while the function is the pinned one (hash); for a modified source the list is evidence only.
 PINNED = {
-    'Keyvalues.parse': ('cf7a48690489', ['raise tokenizer.error(', "'Keyvalue split across lines!"]),   # dead: block_line is NONE here
+    'Keyvalues.parse': ('25b554b076ed', ['raise tokenizer.error(', "'Keyvalue split across lines!"]),   # dead: block_line is NONE here
     'Keyvalues.serialise': ('49623aba6273', []),
-    'Keyvalues._serialise': ('574e22878c78', []),
-    'Keyvalues.export': ('c2c79d393f35', []),
+    'Keyvalues._serialise': ('553a2075c4c4', []),
+    'Keyvalues.export': ('50dbe0740356', []),
     '_read_flag': ('1a607a531026', []),
     'Tokenizer._handle_string': ('74c89d830db7', ["raise self.error('Unterminated string!') from None"]),   # dead: None handled above
     'Tokenizer._get_token': ('8e30f2b7dad0', ['return comm', "return Token.BRACK_OPEN", "return Token.PAREN_OPEN", "return Token.COLON",
@@ -274,7 +286,7 @@ def replay(path: str) -> int:
         out = work.path('replay.ndjson')
         core.run_driver('c01_driver.py', ['replay', path, out])
         mism, _ = core.validate_records('KV1Trace', 'KV1Trace.cfg', out, work=work, shards=1)
-        known, new = core.classify(PROP, [sig_of(m) for m in mism])
+        known, new = core.classify(PROP, [sig_of(m) for m in mism if not m['clause'].startswith('diag.')])
         for c in sorted({s['clause'] for s in new}):
             print(f'VIOLATION property={PROP} replay={path} clause={c}')
         if not new:
